@@ -290,6 +290,13 @@ func isRequestHeader(k string) bool {
 
 // c11Down: server -> client, polls placed after given counts of backend sends.
 func c11Down(name string, seq []msg, pollAfter []int, pb int) vx.Scenario {
+	return c11DownClose(name, seq, pollAfter, false, pb)
+}
+
+// c11DownClose: with thenClose the backend closes its end after the last message
+// and the client only starts polling once the agent has noticed the close: what
+// was sent before the close must still be delivered.
+func c11DownClose(name string, seq []msg, pollAfter []int, thenClose bool, pb int) vx.Scenario {
 	return vx.Scenario{Name: name, PB: pb, MaxSteps: 20000, MaxTime: 5 * time.Minute,
 		Setup: func(s *vs.Sched) func(*vs.Result) vx.Exec {
 			w := newWorld(false)
@@ -315,6 +322,10 @@ func c11Down(name string, seq []msg, pollAfter []int, pb int) vx.Scenario {
 				for _, n := range pollAfter {
 					n := n
 					vs.Wait(fmt.Sprintf("client: backend has sent %d", n), unsafe.Pointer(w), func() bool { return sent >= n })
+					if thenClose && n >= len(seq) {
+						vs.Wait("client: backend has closed", unsafe.Pointer(w), func() bool { return sent > len(seq) })
+						vs.Quiesce()
+					}
 					poll()
 				}
 				// keep polling until everything has arrived (one poll outstanding at a time)
@@ -330,6 +341,11 @@ func c11Down(name string, seq []msg, pollAfter []int, pb int) vx.Scenario {
 						t = vws.BinaryMessage
 					}
 					w.servers[0].WriteMessage(t, m.data)
+					vs.Touch(unsafe.Pointer(w))
+					sent++
+				}
+				if thenClose {
+					w.servers[0].Close()
 					vs.Touch(unsafe.Pointer(w))
 					sent++
 				}
@@ -433,6 +449,20 @@ func c11Scenarios(th bool) []vx.Scenario {
 		}
 	}
 	rec(nil, nil)
+	// the backend closes right after its last message; the client polls afterwards
+	for i, m := range al {
+		out = append(out, c11DownClose(fmt.Sprintf("c11/down-then-close/[%d]", i), []msg{m}, []int{1}, true, pb))
+		out = append(out, c11DownClose(fmt.Sprintf("c11/down-then-close/[%d 0]/poll@1", i), []msg{m, al[0]}, []int{1}, true, pb))
+		out = append(out, c11DownClose(fmt.Sprintf("c11/down-then-close/[0 %d]/poll@2", i), []msg{al[0], m}, []int{2}, true, pb))
+	}
+	// sessions opened at the same time: each side only ever gets its own session's messages
+	for _, pp := range [][]string{{"a", "b"}, {"a", "fail1"}, {"a", "b", "c"}} {
+		p := 2
+		if len(pp) > 2 {
+			p = 1
+		}
+		out = append(out, c12Opens(pp, p))
+	}
 	// injection enabled: every alphabet member alone and in pairs with an injectable one
 	for i, m := range al {
 		out = append(out, c11Up(fmt.Sprintf("c11/inject/[%d]", i), []msg{m}, []int{1}, true, 0))
